@@ -360,46 +360,69 @@ func registerVerifrt() {
 	ext(p+"Yield", func(fr *frame, a []value) value { S.switchPoint("yield"); return nil })
 	// Quiesce: let every other goroutine run until all are finished or blocked;
 	// returns the number of goroutines still blocked.
-	ext(p+"Quiesce", func(fr *frame, a []value) value {
-		self := S.cur
-		for {
-			var other *thread
-			for _, t := range S.threads {
-				if t != self && !t.done && (t.blocked == nil || t.blocked()) {
-					other = t
-					break
-				}
-			}
-			if other == nil {
+	ext(p+"Quiesce", func(fr *frame, a []value) value { return quiesceOthers() })
+	// AdvanceTime(d): virtual-clock mode. Every timer whose due time lies within the
+	// next d nanoseconds fires in due-time order (ties: armed first); after each
+	// firing everything runs until all other goroutines are blocked.
+	ext(p+"AdvanceTime", func(fr *frame, a []value) value {
+		S.vclockOn = true
+		target := S.now + asInt64(a[0])
+		for n := 0; n < 100000; n++ {
+			t := S.nextDue()
+			if t == nil || t.due() > target {
 				break
 			}
-			en := S.enabled()
-			// choose among the others
-			var others []*thread
-			for _, t := range en {
-				if t != self {
-					others = append(others, t)
-				}
+			if d := t.due(); d > S.now {
+				S.now = d
 			}
-			pick := others[0]
-			if len(others) > 1 {
-				pick = others[P.decide(len(others), "sched:quiesce")]
-			}
-			S.transfer(pick)
+			S.fire(t)
+			quiesceOthers()
 		}
-		n := 0
-		for _, t := range S.threads {
-			if t != self && !t.done {
-				n++
-			}
-		}
-		if n > 0 {
-			P.tracef("quiesce: blocked: %s", S.describeBlocked())
-		}
-		return n
+		S.now = target
+		return quiesceOthers()
 	})
 	ext(p+"BlockedDesc", func(fr *frame, a []value) value { return S.describeBlocked() })
 	ext(p+"FireTimer", func(fr *frame, a []value) value { return S.fireTimer() })
+}
+
+// quiesceOthers lets every other goroutine run until all are finished or
+// blocked; returns the number of goroutines still blocked.
+func quiesceOthers() int {
+	self := S.cur
+	for {
+		var other *thread
+		for _, t := range S.threads {
+			if t != self && !t.done && (t.blocked == nil || t.blocked()) {
+				other = t
+				break
+			}
+		}
+		if other == nil {
+			break
+		}
+		en := S.enabled()
+		var others []*thread
+		for _, t := range en {
+			if t != self {
+				others = append(others, t)
+			}
+		}
+		pick := others[0]
+		if len(others) > 1 {
+			pick = others[P.decide(len(others), "sched:quiesce")]
+		}
+		S.transfer(pick)
+	}
+	n := 0
+	for _, t := range S.threads {
+		if t != self && !t.done {
+			n++
+		}
+	}
+	if n > 0 {
+		P.tracef("quiesce: blocked: %s", S.describeBlocked())
+	}
+	return n
 }
 
 // ------------------------------------------------------------------ sync
